@@ -91,7 +91,16 @@ fn check_against_reference(ctx: &mut Ctx, s: &Stream, got: &[Message], k: usize,
 }
 
 fn decode_via(image: &[u8], plan: ReaderPlan, seed: u64, ctx: &mut Ctx) -> (Result<Vec<Message>, String>, u64, bool) {
+    decode_from(image, 0, plan, seed, ctx)
+}
+
+/// Decodes from a reader that has already been advanced to `start` (a stream embedded after a prefix).
+fn decode_from(image: &[u8], start: usize, plan: ReaderPlan, seed: u64, ctx: &mut Ctx) -> (Result<Vec<Message>, String>, u64, bool) {
+    use std::io::{Seek, SeekFrom};
     let mut rd = SimReader::new(image, plan, seed, ctx.trace_on);
+    if start > 0 {
+        let _ = rd.seek(SeekFrom::Start(start as u64));
+    }
     let r = decode_messages(&mut rd).map_err(|e| format!("{:?}", e));
     rd.account(ctx);
     ctx.evaluations += 1;
@@ -136,7 +145,7 @@ impl Check for C03 {
                "stub": ["the storage device behind Read+Seek (SimReader with Cursor seek semantics)"]})
     }
     fn required_probes(&self, _tier: Tier) -> Vec<&'static str> {
-        vec!["cut_inside_header", "cut_inside_body", "cut_on_boundary", "fault.eintr", "fault.short_read", "permuted_pointer_message"]
+        vec!["cut_inside_header", "cut_inside_body", "cut_on_boundary", "fault.eintr", "fault.short_read", "permuted_pointer_message", "embedded_after_prefix", "variable_length_marker_in_header"]
     }
     fn budget_s(&self, tier: Tier) -> u64 {
         match tier {
@@ -160,6 +169,9 @@ impl Check for C03 {
         let hasfix = s.msgs.iter().any(|m| m.mtype != 31);
         ctx.nontrivial = n >= 2 && has31 && hasfix;
         for m in &s.msgs {
+            if s.bytes[m.off + 12] == 0xFF && s.bytes[m.off + 13] == 0xFF {
+                ctx.count("variable_length_marker_in_header");
+            }
             ctx.class.u(m.mtype as u64);
             ctx.class.u(m.len as u64);
             if let Some(t) = &m.t31 {
@@ -230,6 +242,51 @@ impl Check for C03 {
                 }
             }
             ctx.evaluations += 1;
+        }
+
+        // ---- batch 1b: the same stream embedded after a prefix, reader already advanced
+        if tape.draw(3) == 2 {
+            let plen = 1 + tape.draw(200) as usize;
+            let mut image = tape.bytes(plen);
+            image.extend_from_slice(&s.bytes);
+            ctx.count("embedded_after_prefix");
+            let (r, pos, tripped) = decode_from(&image, plen, ReaderPlan::clean(), 0, ctx);
+            if tripped {
+                ctx.violate("terminates", "embedded".into(), "operation budget exceeded on an embedded stream".into());
+                return;
+            }
+            match r {
+                Ok(v) => {
+                    if v != clean {
+                        ctx.violate("embedded-stream", "differs".into(), format!("a stream of {} messages placed after a {}-byte prefix (reader positioned at its start) decoded to {} messages / different contents", n, plen, v.len()));
+                        return;
+                    }
+                    if pos != image.len() as u64 {
+                        ctx.violate("reader-position", "embedded".into(), format!("embedded stream: reader at {} of {}", pos, image.len()));
+                        return;
+                    }
+                }
+                Err(e) => {
+                    ctx.violate("embedded-stream", "error".into(), format!("a well-formed stream placed after a {}-byte prefix (reader positioned at its start) failed: {}", plen, e));
+                    return;
+                }
+            }
+            // and one cut inside it
+            if !s.bytes.is_empty() {
+                let t = tape.draw(s.bytes.len() as u64) as usize;
+                let (k, inside_body) = s.classify_cut(t);
+                let mut pl = ReaderPlan::clean();
+                pl.eof_at = Some(plen + t);
+                let (r, _, _) = decode_from(&image, plen, pl, 0, ctx);
+                let ok = match &r {
+                    Ok(v) => !inside_body && v.len() == k,
+                    Err(_) => inside_body,
+                };
+                if !ok {
+                    ctx.violate("embedded-stream", "cut".into(), format!("embedded stream cut {} bytes in ({} complete messages, inside body: {}): got {:?}", t, k, inside_body, r.as_ref().map(|v| v.len())));
+                    return;
+                }
+            }
         }
 
         // ---- batch 2: short reads + EINTR must not change anything
